@@ -467,8 +467,14 @@ def gram4_source(block, seq, syntax, body='digits'):
 TEXT_CONTEXTS = {
     'HTML': [('&dtml-x ', ''), ('&dtml.a ', ''), ('&dtml-', ''),
              ('<dtml ', ''), ('<!-- ', ''), ('&dtml-\n', ''),
-             ('', ' &dtml-x'), ('', '<dtml-'), ('', '<!--#'), ('', '&dtml.')],
-    'String': [('% ', ''), ('%%', ''), ('%\n', ''), ('', '%('), ('', '%')],
+             ('', ' &dtml-x'), ('', '<dtml-'), ('', '<!--#'), ('', '&dtml.'),
+             # characters that are line boundaries for str.splitlines()
+             # but not line ends: lines are counted in \n
+             ('a\rb', ''), ('\x0c', ''), ('\x0b\x1c\x1d\x1e', ''),
+             ('\x85\u2028\u2029', ''), ('\r\n\r', '')],
+    'String': [('% ', ''), ('%%', ''), ('%\n', ''), ('', '%('), ('', '%'),
+               ('a\rb', ''), ('\x0c\x0b', ''), ('\x85\u2028', ''),
+               ('\r\n\r', '')],
 }
 
 
